@@ -123,6 +123,14 @@ impl FeoxStore {
             return Err(FeoxError::StaleExtent);
         }
         crate::test_hooks::pause_at(crate::test_hooks::AFTER_SECTOR_LOAD);
+        #[cfg(feoxdb_verif)]
+        crate::verif::sched_point(
+            "after_sector_load",
+            sector,
+            get_format_ref(self.format_version)
+                .total_size(source.key.len(), source.value_len)
+                .div_ceil(FEOX_BLOCK_SIZE) as u64,
+        );
 
         // Get the appropriate format handler
         let format = get_format_ref(self.format_version);
@@ -144,6 +152,8 @@ impl FeoxStore {
             .read();
 
         let data = disk_io.read_sectors_sync(sector, sectors_needed as u64)?;
+        #[cfg(feoxdb_verif)]
+        crate::verif::sched_point("after_pread", sector, sectors_needed as u64);
         drop(extent);
 
         if !sector_holds_record(&data, &source) {
